@@ -1,5 +1,5 @@
 # replay of a bounded stand-in violation (C14): re-run native/c14_io.py
 import sys
-print('generate_code Fouriergate.H: the generated code does not run: TypeError: Fouriergate.__init__() takes 1 positional argument but 2 were given')
+print("xir tdm-two-bands-dagger-select: loading what was saved raised TypeError: object of type 'int' has no len()")
 print('REPLAY-VIOLATION')
 sys.exit(1)
